@@ -79,7 +79,7 @@ Proof. exact next_reads_next. Qed.
 Definition ex_progs : list (list op) :=
   [[LockWrite; PushBack 10; PushBack 20; PushFront 5; Begin 0; Next 0; Erase 0; Release];
    [LockRead; Begin 0; Next 0; Deref 0; Next 0; Deref 0; Release]].
-Definition ex_sched : list (nat * nat) := repeat (0%nat, 0%nat) 36 ++ repeat (1%nat, 0%nat) 10 ++ repeat (0%nat, 0%nat) 7.
+Definition ex_sched : list (nat * nat) := repeat (0%nat, 0%nat) 36 ++ repeat (1%nat, 0%nat) 10 ++ repeat (0%nat, 0%nat) 8.
 Definition ex_state := run glob loc tstep (init false ex_progs) ex_sched.
 
 (* thread 0 has pushed 10, 20, 5 (front) and is in the middle of erasing the second element (10),
